@@ -205,7 +205,9 @@ func checkDirtyCover(c *core.Ctx, rule string) {
 					for _, d := range marks {
 						for _, g := range core.GatesBefore(d) {
 							if core.DependsOn(g.If.Cond, func(v ssa.Value) bool {
-								if f2, ok := v.(*ssa.FieldAddr); ok && fieldNameOf(f2) == field && core.Unwrap(f2.X) == ssa.Value(recv) {
+								// the test has to read the value the field held before the assignment: a read
+								// the store can reach compares the new value with itself
+								if f2, ok := v.(*ssa.FieldAddr); ok && fieldNameOf(f2) == field && core.Unwrap(f2.X) == ssa.Value(recv) && !instrReaches(st, f2) {
 									return true
 								}
 								return false
@@ -410,4 +412,132 @@ func sameGates(a, b ssa.Instruction) bool {
 		}
 	}
 	return true
+}
+
+// instrReaches: control can flow from instruction a to instruction b.
+func instrReaches(a, b ssa.Instruction) bool {
+	if a.Block() == b.Block() {
+		if core.InstrIndex(a) < core.InstrIndex(b) {
+			return true
+		}
+		return core.InCycle(a.Block())
+	}
+	for _, s := range a.Block().Succs {
+		if s == b.Block() || core.ReachFrom(s, nil)[b.Block()] {
+			return true
+		}
+	}
+	return false
+}
+
+// ---------------------------------------------------------------- C09.lazy
+
+// checkLazyLoad — a module field that is filled from the tree on first use by a loader of the
+// shape `if len(m.F) != 0 { return }; m.F = make(…); … tree.Get … m.F[k] = v` holds the whole
+// persisted table once loaded, and Commit writes the table back from it. A method that inserts
+// into, or reads, F without having called the loader works on an empty table in a freshly started
+// process: a lookup misses what is on disk, and an insert followed by Commit overwrites the stored
+// table with the single new entry. Every access to F outside the loader is therefore dominated by
+// a call of the loader, except in the constructor, in the module's Commit (which writes only when
+// an inserter — that did load — marked the table dirty) and in the genesis importer.
+func checkLazyLoad(c *core.Ctx, rule string) {
+	type lazy struct {
+		t      *types.Named
+		field  string
+		loader *ssa.Function
+	}
+	var lz []lazy
+	for _, fn := range c.AllFns {
+		if !strings.HasPrefix(core.PkgOf(fn), core.PkgState+"/") || fn.Blocks == nil || fn.Signature.Recv() == nil || fn.Synthetic != "" || len(fn.Params) != 1 {
+			continue
+		}
+		recv := fn.Params[0]
+		t := namedOf(recv.Type())
+		if t == nil {
+			continue
+		}
+		// stores of a fresh map into a receiver field …
+		for _, b := range fn.Blocks {
+			for _, in := range b.Instrs {
+				st, ok := in.(*ssa.Store)
+				if !ok {
+					continue
+				}
+				fa, ok := st.Addr.(*ssa.FieldAddr)
+				if !ok || core.Unwrap(fa.X) != ssa.Value(recv) {
+					continue
+				}
+				if _, ok := core.Unwrap(st.Val).(*ssa.MakeMap); !ok {
+					continue
+				}
+				field := fieldNameOf(fa)
+				// … guarded by an early return that tests the field itself, and followed by a tree read
+				gated := false
+				for _, g := range core.GatesBefore(st) {
+					if core.DependsOn(g.If.Cond, func(v ssa.Value) bool {
+						f2, ok := v.(*ssa.FieldAddr)
+						return ok && fieldNameOf(f2) == field && core.Unwrap(f2.X) == ssa.Value(recv)
+					}) {
+						gated = true
+					}
+				}
+				readsTree := false
+				for _, s := range core.Sites(fn) {
+					mn := ""
+					if s.Common.IsInvoke() {
+						mn = s.Common.Method.Name()
+					} else if sc := s.Common.StaticCallee(); sc != nil && sc.Pkg != nil && strings.Contains(sc.Pkg.Pkg.Path(), "iavl") {
+						mn = sc.Name()
+					}
+					if mn == "Get" || mn == "IterateRange" || mn == "Iterate" {
+						readsTree = true
+					}
+				}
+				if gated && readsTree {
+					lz = append(lz, lazy{t: t, field: field, loader: fn})
+				}
+			}
+		}
+	}
+	n := 0
+	for _, l := range lz {
+		ms := c.Prog.MethodSets.MethodSet(types.NewPointer(l.t))
+		for i := 0; i < ms.Len(); i++ {
+			fn := c.Prog.FuncValue(ms.At(i).Obj().(*types.Func))
+			if fn == nil || fn.Blocks == nil || fn.Synthetic != "" || fn == l.loader {
+				continue
+			}
+			name := fn.Name()
+			if name == "Commit" || strings.HasPrefix(name, "Set") && strings.Contains(core.ShortFn(fn), "Deleted") {
+				continue
+			}
+			fns := append([]*ssa.Function{fn}, fn.AnonFuncs...)
+			k := 0
+			for _, f := range fns {
+				for _, b := range f.Blocks {
+					for _, in := range b.Instrs {
+						fa, ok := in.(*ssa.FieldAddr)
+						if !ok || fieldNameOf(fa) != l.field {
+							continue
+						}
+						if nt := namedOf(fa.X.Type()); nt == nil || nt.Obj() != l.t.Obj() {
+							continue
+						}
+						k++
+						n++
+						key := fmt.Sprintf("%s/%s#%d", core.ShortFn(fn), l.field, k)
+						loaded := false
+						for _, s := range core.Sites(f) {
+							if s.Common.StaticCallee() == l.loader && core.Dominates(s.Instr, fa) {
+								loaded = true
+							}
+						}
+						c.Check(loaded, rule, key, fa.Pos(), "the lazily loaded table "+l.field+" is accessed after "+l.loader.Name()+"()",
+							fmt.Sprintf("%s accesses the lazily loaded table %s without calling %s first: in a freshly started process the table is empty — a lookup misses what is stored, and an insert makes Commit overwrite the stored table with the new entries only", core.ShortFn(fn), l.field, l.loader.Name()))
+					}
+				}
+			}
+		}
+	}
+	c.Floor(rule, n, 4, "accesses to lazily loaded module tables outside their loaders")
 }
